@@ -154,13 +154,25 @@ func CloneDefaultValue(v any) any {
 	return deepCloneValue(reflect.ValueOf(v), 0).Interface()
 }
 
-// maxCloneDepth bounds the recursion of deepCloneValue (self-referential values).
-const maxCloneDepth = 64
+// cloneKey identifies a reference cell (map, slice backing array, pointee) met while cloning.
+type cloneKey struct {
+	ptr      uintptr
+	len, cap int
+	typ      reflect.Type
+}
 
 // deepCloneValue copies the reference-typed parts of rv recursively. Struct values are
 // copied field by field where the fields can be set; funcs and channels stay shared.
 func deepCloneValue(rv reflect.Value, depth int) reflect.Value {
-	if !rv.IsValid() || depth > maxCloneDepth {
+	return deepCloneSeen(rv, make(map[cloneKey]reflect.Value))
+}
+
+// deepCloneSeen clones rv; seen maps every map, slice and pointee already cloned to its
+// copy, so that a cell reachable along two paths is copied once and a self-referential value
+// is copied as a self-referential value. No part of the original is ever shared with the
+// copy, however deep the value is.
+func deepCloneSeen(rv reflect.Value, seen map[cloneKey]reflect.Value) reflect.Value {
+	if !rv.IsValid() {
 		return rv
 	}
 	switch rv.Kind() {
@@ -168,25 +180,39 @@ func deepCloneValue(rv reflect.Value, depth int) reflect.Value {
 		if rv.IsNil() {
 			return rv
 		}
+		k := cloneKey{ptr: rv.Pointer(), typ: rv.Type()}
+		if c, ok := seen[k]; ok {
+			return c
+		}
 		m := reflect.MakeMapWithSize(rv.Type(), rv.Len())
+		seen[k] = m
 		iter := rv.MapRange()
 		for iter.Next() {
-			m.SetMapIndex(iter.Key(), deepCloneValue(iter.Value(), depth+1))
+			m.SetMapIndex(iter.Key(), deepCloneSeen(iter.Value(), seen))
 		}
 		return m
 	case reflect.Slice:
 		if rv.IsNil() {
 			return rv
 		}
+		k := cloneKey{ptr: rv.Pointer(), len: rv.Len(), cap: rv.Cap(), typ: rv.Type()}
+		if rv.Cap() > 0 {
+			if c, ok := seen[k]; ok {
+				return c
+			}
+		}
 		s := reflect.MakeSlice(rv.Type(), rv.Len(), rv.Cap())
+		if rv.Cap() > 0 {
+			seen[k] = s
+		}
 		for i := range rv.Len() {
-			s.Index(i).Set(deepCloneValue(rv.Index(i), depth+1))
+			s.Index(i).Set(deepCloneSeen(rv.Index(i), seen))
 		}
 		return s
 	case reflect.Array:
 		a := reflect.New(rv.Type()).Elem()
 		for i := range rv.Len() {
-			a.Index(i).Set(deepCloneValue(rv.Index(i), depth+1))
+			a.Index(i).Set(deepCloneSeen(rv.Index(i), seen))
 		}
 		return a
 	case reflect.Interface:
@@ -194,7 +220,7 @@ func deepCloneValue(rv reflect.Value, depth int) reflect.Value {
 			return rv
 		}
 		out := reflect.New(rv.Type()).Elem()
-		out.Set(deepCloneValue(rv.Elem(), depth+1))
+		out.Set(deepCloneSeen(rv.Elem(), seen))
 		return out
 	case reflect.Pointer:
 		if rv.IsNil() {
@@ -203,15 +229,20 @@ func deepCloneValue(rv reflect.Value, depth int) reflect.Value {
 		if b, ok := rv.Interface().(*big.Int); ok {
 			return reflect.ValueOf(new(big.Int).Set(b))
 		}
+		k := cloneKey{ptr: rv.Pointer(), typ: rv.Type()}
+		if c, ok := seen[k]; ok {
+			return c
+		}
 		p := reflect.New(rv.Type().Elem())
-		p.Elem().Set(deepCloneValue(rv.Elem(), depth+1))
+		seen[k] = p
+		p.Elem().Set(deepCloneSeen(rv.Elem(), seen))
 		return p
 	case reflect.Struct:
 		out := reflect.New(rv.Type()).Elem()
 		out.Set(rv)
 		for i := range rv.NumField() {
 			if f := out.Field(i); f.CanSet() {
-				f.Set(deepCloneValue(rv.Field(i), depth+1))
+				f.Set(deepCloneSeen(rv.Field(i), seen))
 			}
 		}
 		return out
